@@ -82,6 +82,14 @@ def modules():
     T2 = {"n": "T2", "k": "c", "i": [["o", 15], ["ret"]], "f": "g", "e": True, "cfi": {"0": [SP, DEF], "2": [EP]}}
     T3 = {"n": "T3", "k": "c", "i": [["ret"]], "f": "h", "e": True, "cfi": {"0": [SP, DEF, OFF16], "1": [EP]}}
     out["back-to-back"] = scen.spec_of([T1, T2, T3])
+    # one procedure whose two code blocks are separated by data: each holds one half of the startproc/endproc pair and
+    # has no code neighbour on either side (section start / data), so neither can hand its directives to a neighbour
+    S1 = {"n": "S1", "k": "c", "i": [["o", 16], ["jmp", "S2"]], "f": "f", "e": True, "cfi": {"0": [SP, DEF]}}
+    SD = scen.data_block("SD", [0xD3, 0xD4])
+    S2 = {"n": "S2", "k": "c", "i": [["o", 17], ["ret"]], "f": "f", "e": False, "cfi": {"2": [EP]}}
+    SD2 = scen.data_block("SD2", [0xD5])
+    H = {"n": "H", "k": "c", "i": [["o", 18], ["ret"]], "f": "g", "e": True, "cfi": {"0": [SP, DEF], "2": [EP]}}
+    out["split-by-data"] = scen.spec_of([S1, SD, S2, SD2, H])
     return out
 
 
